@@ -21,12 +21,12 @@ import (
 
 	"github.com/lesismal/nbio"
 	"github.com/lesismal/nbio/nbhttp"
-	_ "github.com/lesismal/nbio/nbhttp/websocket"
+	"github.com/lesismal/nbio/nbhttp/websocket"
 	"pgregory.net/rapid"
 )
 
 type Act struct {
-	K string `json:"k"` // client, client-traffic, client-close, addconn, dial, dial-refused, backlog, sendfile, backlog-sendfile, fardeadline, serverclose
+	K string `json:"k"` // client, client-traffic, client-close, addconn, dial, dial-refused, backlog, sendfile, backlog-sendfile, fardeadline, serverclose, ws, ws-transfer, ws-traffic, ws-transfer-traffic
 }
 
 type Case struct {
@@ -157,8 +157,13 @@ func runCase(c Case) vlib.Result {
 			return nil
 		}
 	default:
-		conf := nbhttp.Config{Network: "tcp", Addrs: addrList, NPoller: c.NPoller, IOMod: c.IOMod, MaxBlockingOnline: 2, AsyncReadInPoller: c.Async,
-			Handler: http.HandlerFunc(func(w http.ResponseWriter, r *http.Request) { _, _ = w.Write([]byte("ok")) })}
+		u := websocket.NewUpgrader() // default keep-alive (120 s): a pending timer per upgraded connection
+		u.OnMessage(func(wc *websocket.Conn, mt websocket.MessageType, data []byte) { _ = wc.WriteMessage(mt, data) })
+		mux := http.NewServeMux()
+		mux.HandleFunc("/", func(w http.ResponseWriter, r *http.Request) { _, _ = w.Write([]byte("ok")) })
+		mux.HandleFunc("/ws", func(w http.ResponseWriter, r *http.Request) { _, _ = u.Upgrade(w, r, nil) })
+		mux.HandleFunc("/wst", func(w http.ResponseWriter, r *http.Request) { _, _ = u.UpgradeAndTransferConnToPoller(w, r, nil) })
+		conf := nbhttp.Config{Network: "tcp", Addrs: addrList, NPoller: c.NPoller, IOMod: c.IOMod, MaxBlockingOnline: 2, AsyncReadInPoller: c.Async, Handler: mux}
 		switch c.Mode {
 		case vlib.ModeET:
 			conf.EpollMod = nbio.EPOLLET
@@ -167,6 +172,7 @@ func runCase(c Case) vlib.Result {
 			conf.EPOLLONESHOT = nbio.EPOLLONESHOT
 		}
 		e := nbhttp.NewEngine(conf)
+		u.Engine = e
 		var hopens int64
 		e.OnOpen(func(conn net.Conn) {
 			n := atomic.AddInt64(&hopens, 1)
@@ -225,6 +231,29 @@ func runCase(c Case) vlib.Result {
 					_ = p.Close()
 					openAtStop--
 				}
+			case "ws", "ws-transfer", "ws-traffic", "ws-transfer-traffic":
+				// a WebSocket connection (upgraded in place, or transferred to the poller) that is open, with its
+				// keep-alive timer pending, when the engine stops
+				if c.Kind != "http" {
+					continue
+				}
+				p, err := net.DialTimeout("tcp", addrs[len(peers)%len(addrs)], 3*time.Second)
+				if err != nil {
+					continue
+				}
+				addPeer(p)
+				openAtStop++
+				path := "/ws"
+				if strings.HasPrefix(a.K, "ws-transfer") {
+					path = "/wst"
+				}
+				_ = p.SetDeadline(time.Now().Add(3 * time.Second))
+				if cl, err := vlib.WSHandshake(p, path, false); err == nil && strings.HasSuffix(a.K, "traffic") {
+					if cl.WriteMessage(vlib.OpText, []byte("hello")) == nil {
+						_, _ = cl.ReadFrame()
+					}
+				}
+				_ = p.SetDeadline(time.Time{})
 			case "addconn", "backlog", "sendfile", "backlog-sendfile", "fardeadline", "serverclose":
 				if core == nil {
 					continue
@@ -470,7 +499,7 @@ func gen(t *rapid.T) Case {
 	} else {
 		n := rapid.IntRange(0, 8).Draw(t, "nacts")
 		for i := 0; i < n; i++ {
-			c.Acts = append(c.Acts, Act{K: rapid.SampledFrom([]string{"client", "client-traffic", "client-traffic", "client-close", "addconn", "dial", "dial-refused", "backlog", "sendfile", "backlog-sendfile", "fardeadline", "serverclose"}).Draw(t, "act")})
+			c.Acts = append(c.Acts, Act{K: rapid.SampledFrom([]string{"client", "client-traffic", "client-traffic", "client-close", "addconn", "dial", "dial-refused", "backlog", "sendfile", "backlog-sendfile", "fardeadline", "serverclose", "ws", "ws-transfer", "ws-traffic", "ws-transfer-traffic"}).Draw(t, "act")})
 		}
 	}
 	if rapid.IntRange(0, 3).Draw(t, "refuse") == 0 {
